@@ -657,9 +657,19 @@ class Doc:
                     out.append(b)
         return out
 
-    def print(self, rng, compact=None):
+    def print(self, rng=None, compact=None):
+        """Print QML; with rng=None the layout is canonical (no cosmetic variation)."""
         buf = []
         pos = [0]
+
+        class _No:
+            def random(self):
+                return 1.0
+
+            def randrange(self, n):
+                return 0
+        if rng is None:
+            rng = _No()
 
         def emit(s):
             buf.append(s)
@@ -737,3 +747,109 @@ class Doc:
         self.source = "".join(buf)
         assert pos[0] == len(self.source.encode("utf-8"))
         return self.source
+
+
+# ---------------------------------------------------------------------------------------------
+# single semantic faults planted into an accepted document
+
+FAULT_KINDS = ["unknown-property", "ill-typed", "unsupported-syntax", "dynamic-attached", "read-only",
+               "unknown-signal", "duplicate-binding", "duplicate-grouped", "duplicate-attached",
+               "unknown-type", "invalid-type", "unknown-attached-type"]
+
+
+class Fault:
+    def __init__(self, kind, obj, binding=None):
+        self.kind = kind
+        self.obj = obj          # object that contains the fault (for type faults: the object itself)
+        self.binding = binding  # planted Binding (None for type faults)
+
+
+def plant_fault(rng, doc, kind):
+    """Mutates `doc` (use a deep copy) by planting one fault; re-prints canonically. Returns Fault or None."""
+    objs = [o for o in doc.objects() if o.kind != "separator"]
+    in_layout = [o for o in objs if o.parent is not None and o.parent.kind == "layout"]
+    nonroot = [o for o in objs if o.parent is not None]
+    b = None
+    if kind == "unknown-property":
+        o = rng.choice(objs)
+        b = Binding((rng.choice(("noSuchProperty", "txet", "colour", "foo_bar")),), rng.choice(("1", '"x"', "true")), "fault")
+    elif kind == "ill-typed":
+        cands = [(o, n) for o in objs for n in ("enabled", "toolTip", "windowTitle", "minimumWidth")
+                 if o.kind in ("widget", "menu") and not _has_binding(o, n)]
+        if not cands:
+            return None
+        o, n = rng.choice(cands)
+        src = {"enabled": rng.choice(('"yes"', "1", "Qt.AlignLeft")), "toolTip": rng.choice(("1", "true", "1.5")),
+               "windowTitle": rng.choice(("42", "false")), "minimumWidth": rng.choice(('"10"', "true", "1.5"))}[n]
+        b = Binding((n,), src, "fault")
+    elif kind == "unsupported-syntax":
+        cands = [o for o in objs if o.kind in ("widget", "menu") and not _has_binding(o, "toolTip")]
+        if not cands:
+            return None
+        o = rng.choice(cands)
+        b = Binding(("toolTip",), rng.choice(('"a" ** 2', "typeof 1", "new Foo()", "(function() { return 1 })",
+                                               "1 in 2", "void 0", "`tmpl`", '"a" ?? "b"', "1 >>> 2")), "fault")
+    elif kind == "dynamic-attached":
+        srcs = [o2.id for o2 in objs if o2.id and o2.cls in ("QSpinBox", "QSlider")]
+        cands = [o for o in in_layout if not any(getattr(x, "attached", False) and x.path[0] == "QLayout" for x in o.bindings)]
+        if not srcs or not cands:
+            return None
+        o = rng.choice(cands)
+        b = Binding(("QLayout", rng.choice(("row", "column", "rowStretch"))), "%s.value" % rng.choice(srcs), "fault", attached=True)
+    elif kind == "read-only":
+        cands = [o for o in objs if o.kind in ("widget", "menu")]
+        if not cands:
+            return None
+        o = rng.choice(cands)
+        b = Binding((rng.choice(("width", "height", "isActiveWindow", "childrenRect", "x")),), "10", "fault")
+    elif kind == "unknown-signal":
+        o = rng.choice(objs)
+        b = Binding((rng.choice(("onNoSuchSignal", "onFooBar", "onClickedd")),), "{}", "fault")
+    elif kind == "duplicate-binding":
+        cands = [(o, x) for o in objs for x in o.bindings if isinstance(x, Binding) and len(x.path) == 1 and not x.attached]
+        if not cands:
+            return None
+        o, x = rng.choice(cands)
+        b = Binding(x.path, x.src, "fault")
+    elif kind == "duplicate-grouped":
+        cands = [(o, g) for o in objs for g in o.bindings if isinstance(g, Group) and g.members]
+        if not cands:
+            return None
+        o, g = rng.choice(cands)
+        m = rng.choice(g.members)
+        b = Binding(m.path, m.src, "fault")
+    elif kind == "duplicate-attached":
+        cands = [(o, x) for o in objs for x in o.bindings if isinstance(x, Binding) and x.attached]
+        if not cands:
+            return None
+        o, x = rng.choice(cands)
+        b = Binding(x.path, x.src, "fault", attached=True)
+    elif kind == "unknown-attached-type":
+        o = rng.choice(objs)
+        b = Binding((rng.choice(("NoSuchType", "QFoo", "Layout")), "row"), "1", "fault", attached=True)
+    elif kind in ("unknown-type", "invalid-type"):
+        if not nonroot:
+            return None
+        o = rng.choice(nonroot)
+        o.orig_cls = o.cls
+        # a type that is not a class (QVariant is a value type without class representation)
+        o.cls = rng.choice(("NoSuchWidget", "QLabell", "Foo")) if kind == "unknown-type" else "QVariant"
+        doc.print(None)
+        return Fault(kind, o)
+    else:
+        raise ValueError(kind)
+    b.owner = o
+    b.surface = "fault"
+    o.bindings.insert(rng.randrange(len(o.bindings) + 1), b)
+    doc.print(None)
+    return Fault(kind, o, b)
+
+
+def _has_binding(o, name):
+    for x in o.bindings:
+        if isinstance(x, Group):
+            if x.name == name:
+                return True
+        elif x.path[0] == name and not x.attached:
+            return True
+    return False
